@@ -988,7 +988,10 @@ where
         let _guard = this.span.set_local_parent();
         let res = ready!(this.inner.poll(cx));
 
+        // Only an entry that was just fetched from the origin is written on insertion; a hit (in memory or on disk) must
+        // not cause another disk write.
         if let Ok(entry) = res.as_ref()
+            && entry.source() == Source::Outer
             && entry.properties().location() != Location::InMem
             && *this.policy == HybridCachePolicy::WriteOnInsertion
             && this.store.is_enabled()
